@@ -8,9 +8,9 @@ use mila::{LZ10CompressionFormat, LZ13CompressionFormat};
 
 const NMAX: usize = 8;
 
-struct Parsed {
+struct Parsed<const P: usize> {
     ok: bool,
-    produced: [u8; 320],
+    produced: [u8; P],
     n: usize,
     tokens: usize,
     refs: usize,
@@ -21,8 +21,8 @@ struct Parsed {
 /// and must expand to exactly `want` bytes, using at most MAXTOK tokens and copies of at most MAXLEN
 /// bytes (loops have concrete trip counts so the symbolic executor does not have to guess them).
 /// `ok` is false on any format violation, or when the budgets do not suffice.
-fn parse_tokens<const MAXTOK: usize, const MAXLEN: usize>(out: &[u8], start: usize, want: usize, lz11: bool) -> Parsed {
-    let mut p = Parsed { ok: true, produced: [0; 320], n: 0, tokens: 0, refs: 0, consumed: start };
+fn parse_tokens<const MAXTOK: usize, const MAXLEN: usize, const P: usize>(out: &[u8], start: usize, want: usize, lz11: bool) -> Parsed<P> {
+    let mut p = Parsed { ok: true, produced: [0; P], n: 0, tokens: 0, refs: 0, consumed: start };
     let mut pos = start;
     let mut flags = 0u8;
     for t in 0..MAXTOK {
@@ -74,7 +74,7 @@ fn parse_tokens<const MAXTOK: usize, const MAXLEN: usize>(out: &[u8], start: usi
                     // token complete, displacement 1..=4096 and only into data already produced,
                     // length >= 3 (<= 18 for LZ10), no overshoot past the declared length
                     if avail < used || disp > 4096 || disp > p.n || len < 3 || (!lz11 && len > 18)
-                        || p.n + len > want || len > MAXLEN
+                        || p.n + len > want || p.n + len > P || len > MAXLEN
                     {
                         p.ok = false;
                     } else {
@@ -101,7 +101,7 @@ fn check_lz10(data: &[u8; NMAX], len: usize, check_format: bool) {
     if check_format {
         assert!(out.len() >= 4 && out[0] == 0x10, "C08: LZ10 stream must start with the type byte 0x10");
         assert!(out[1] as usize == len && out[2] == 0 && out[3] == 0, "C08: LZ10 header must carry the input length (24-bit little-endian)");
-        let p = parse_tokens::<8, 8>(&out, 4, len, false);
+        let p = parse_tokens::<8, 8, 8>(&out, 4, len, false);
         assert!(p.ok, "C08: LZ10 stream is not well-formed (token out of range, reference before start, overshoot or truncated)");
         assert!(p.n == len, "C08: LZ10 stream does not expand to the input length");
         assert!(p.consumed == out.len(), "C08: LZ10 stream has bytes left over");
@@ -210,9 +210,9 @@ fn c08_lz10_len7() {
     check_lz10(&data, 7, true);
 }
 
-fn run_input(v: u8, w: u8, period2: bool, n: usize) -> [u8; 320] {
-    let mut x = [0u8; 320];
-    for i in 0..320 {
+fn run_input<const N: usize>(v: u8, w: u8, period2: bool, n: usize) -> [u8; N] {
+    let mut x = [0u8; N];
+    for i in 0..N {
         if i < n {
             x[i] = if period2 && i % 2 == 1 { w } else { v };
         }
@@ -220,10 +220,10 @@ fn run_input(v: u8, w: u8, period2: bool, n: usize) -> [u8; 320] {
     x
 }
 
-fn check_lz10_long<const MAXTOK: usize, const MAXLEN: usize>(x: &[u8; 320], n: usize, max_len: usize) {
+fn check_lz10_long<const MAXTOK: usize, const MAXLEN: usize, const N: usize>(x: &[u8; N], n: usize, max_len: usize) {
     let out = keep(LZ10CompressionFormat {}.compress(&x[..n])).unwrap();
     assert!(out.len() >= 4 && out[0] == 0x10 && out[1] as usize == n && out[2] == 0 && out[3] == 0, "C08: LZ10 header");
-    let p = parse_tokens::<MAXTOK, MAXLEN>(&out, 4, n, false);
+    let p = parse_tokens::<MAXTOK, MAXLEN, N>(&out, 4, n, false);
     assert!(p.ok && p.n == n && p.consumed == out.len(), "C08: LZ10 stream of a long run is not well-formed / has leftover bytes");
     let i: usize = kani::any();
     kani::assume(i < n);
@@ -238,10 +238,10 @@ fn check_lz10_long<const MAXTOK: usize, const MAXLEN: usize>(x: &[u8; 320], n: u
 // @bounds the 21-byte run of 0x41 (concrete input; tokens L L R18 L)
 // @claims LZ10 on a run: the maximal 18-byte reference is used, stream well-formed, expands to the input, size within the period-1 bound of C10
 #[kani::proof]
-#[kani::unwind(324)]
+#[kani::unwind(66)]
 fn c08_lz10_run21() {
-    let x = run_input(0x41, 0x41, false, 21);
-    check_lz10_long::<4, 18>(&x, 21, 4 + 3 + 3 * 2 + 1);
+    let x = run_input::<64>(0x41, 0x41, false, 21);
+    check_lz10_long::<4, 18, 64>(&x, 21, 4 + 3 + 3 * 2 + 1);
 }
 
 // @tier quick
@@ -250,10 +250,10 @@ fn c08_lz10_run21() {
 // @bounds the 40-byte run of 0xFF (concrete input; tokens L L R18 R18 L L)
 // @claims LZ10 on a long run: consecutive maximal references with growing displacement, trailing literals, well-formed, expands to the input, size within the period-1 bound of C10
 #[kani::proof]
-#[kani::unwind(324)]
+#[kani::unwind(66)]
 fn c08_lz10_run40() {
-    let x = run_input(0xFF, 0xFF, false, 40);
-    check_lz10_long::<6, 18>(&x, 40, 4 + 3 + 4 * 2 + 1);
+    let x = run_input::<64>(0xFF, 0xFF, false, 40);
+    check_lz10_long::<6, 18, 64>(&x, 40, 4 + 3 + 4 * 2 + 1);
 }
 
 // @tier quick
@@ -262,16 +262,16 @@ fn c08_lz10_run40() {
 // @bounds the 9 distinct bytes "abcdefghi" followed by "abc" (concrete input; nine literals then one reference: two flag bytes)
 // @claims LZ10 across a flag-group boundary: the ninth token starts a new flag byte, stream well-formed, expands to the input
 #[kani::proof]
-#[kani::unwind(324)]
+#[kani::unwind(66)]
 fn c08_lz10_two_flag_groups() {
-    let mut x = [0u8; 320];
+    let mut x = [0u8; 64];
     for i in 0..9 {
         x[i] = b'a' + i as u8;
     }
     x[9] = b'a';
     x[10] = b'b';
     x[11] = b'c';
-    check_lz10_long::<10, 3>(&x, 12, 4 + 2 + 9 + 2);
+    check_lz10_long::<10, 3, 64>(&x, 12, 4 + 2 + 9 + 2);
 }
 
 fn check_lz13(data: &[u8; NMAX], len: usize) {
@@ -280,7 +280,7 @@ fn check_lz13(data: &[u8; NMAX], len: usize) {
     assert!(out.len() >= 8 && out[0] == 0x13, "C09: LZ13 output must start with the 0x13 wrapper");
     assert!(out[4] == 0x11, "C09: the wrapped stream must be LZ11 (type byte 0x11)");
     assert!(out[5] as usize == len && out[6] == 0 && out[7] == 0, "C09: LZ11 header must carry the input length (24-bit little-endian)");
-    let p = parse_tokens::<8, 8>(&out, 8, len, true);
+    let p = parse_tokens::<8, 8, 8>(&out, 8, len, true);
     assert!(p.ok, "C09: LZ11 stream is not well-formed (token out of range, reference before start, overshoot or truncated)");
     assert!(p.n == len, "C09: LZ11 stream does not expand to the input length");
     assert!(p.consumed == out.len(), "C09: LZ11 stream has bytes left over");
@@ -383,10 +383,10 @@ fn c09_lz13_empty_input() {
     std::mem::forget(r);
 }
 
-fn check_lz13_long<const MAXTOK: usize, const MAXLEN: usize>(x: &[u8; 320], n: usize, max_len: usize) {
+fn check_lz13_long<const MAXTOK: usize, const MAXLEN: usize, const N: usize>(x: &[u8; N], n: usize, max_len: usize) {
     let out = keep(LZ13CompressionFormat {}.compress(&x[..n])).unwrap();
     assert!(out.len() >= 8 && out[0] == 0x13 && out[4] == 0x11 && out[5] as usize == n && out[6] == 0 && out[7] == 0, "C09: LZ13 headers");
-    let p = parse_tokens::<MAXTOK, MAXLEN>(&out, 8, n, true);
+    let p = parse_tokens::<MAXTOK, MAXLEN, N>(&out, 8, n, true);
     assert!(p.ok && p.n == n && p.consumed == out.len(), "C09: LZ11 stream of a long run is not well-formed / has leftover bytes");
     let i: usize = kani::any();
     kani::assume(i < n);
@@ -401,36 +401,43 @@ fn check_lz13_long<const MAXTOK: usize, const MAXLEN: usize>(x: &[u8; 320], n: u
 // @bounds the 18-byte and the 19-byte run of 0x41 (concrete inputs, solver-chosen arm): match lengths 16 (short form) and 17 (three-byte form)
 // @claims LZ13 on runs: the 16/17 length-form boundary is encoded correctly, stream well-formed, expands to the input, size within the period-1 bound of C10
 #[kani::proof]
-#[kani::unwind(324)]
+#[kani::unwind(66)]
 fn c09_lz13_run18_19() {
     let nineteen: bool = kani::any();
     if nineteen {
-        let x = run_input(0x41, 0x41, false, 19);
-        check_lz13_long::<3, 17>(&x, 19, 8 + 3 + 2 * 4 + 1);
+        let x = run_input::<64>(0x41, 0x41, false, 19);
+        check_lz13_long::<3, 17, 64>(&x, 19, 8 + 3 + 2 * 4 + 1);
     } else {
-        let x = run_input(0x41, 0x41, false, 18);
-        check_lz13_long::<3, 16>(&x, 18, 8 + 3 + 2 * 4 + 1);
+        let x = run_input::<64>(0x41, 0x41, false, 18);
+        check_lz13_long::<3, 16, 64>(&x, 18, 8 + 3 + 2 * 4 + 1);
     }
     kani::cover!(nineteen);
 }
 
 // @tier quick
 // @timeout 1800
-// @mem 12
-// @bounds the 274-byte and the 275-byte run of 0x41 (concrete inputs, solver-chosen arm): match lengths 272 (last value of the three-byte form) and 273 (first value of the four-byte form)
-// @claims LZ13 at the 272/273 length-form boundary: the reference is encoded in the right form, stream well-formed, expands to the input, size within the period-1 bound of C10
+// @mem 24
+// @bounds the 274-byte run of 0x41 (concrete input): one match of length 272, the last value of the three-byte form
+// @cbmc --max-field-sensitivity-array-size 512
+// @claims LZ13 at the 272/273 length-form boundary (272): the reference is encoded in the three-byte form, stream well-formed, expands to the input, size within the period-1 bound of C10
 #[kani::proof]
 #[kani::unwind(324)]
-fn c09_lz13_run274_275() {
-    let long_form: bool = kani::any();
-    if long_form {
-        let x = run_input(0x41, 0x41, false, 275);
-        check_lz13_long::<3, 273>(&x, 275, 8 + 3 + 2 * 4 + 1);
-    } else {
-        let x = run_input(0x41, 0x41, false, 274);
-        check_lz13_long::<3, 272>(&x, 274, 8 + 3 + 2 * 4 + 1);
-    }
-    kani::cover!(long_form);
+fn c09_lz13_run274() {
+    let x = run_input::<320>(0x41, 0x41, false, 274);
+    check_lz13_long::<3, 272, 320>(&x, 274, 8 + 3 + 2 * 4 + 1);
+}
+
+// @tier quick
+// @timeout 1800
+// @mem 24
+// @bounds the 275-byte run of 0x41 (concrete input): one match of length 273, the first value of the four-byte form
+// @cbmc --max-field-sensitivity-array-size 512
+// @claims LZ13 at the 272/273 length-form boundary (273): the reference is encoded in the four-byte form, stream well-formed, expands to the input
+#[kani::proof]
+#[kani::unwind(324)]
+fn c09_lz13_run275() {
+    let x = run_input::<320>(0x41, 0x41, false, 275);
+    check_lz13_long::<3, 273, 320>(&x, 275, 8 + 3 + 2 * 4 + 1);
 }
 
 // @tier quick
@@ -439,10 +446,10 @@ fn c09_lz13_run274_275() {
 // @bounds the 40-byte run of 0xFF (concrete input; tokens L L R38)
 // @claims LZ13 on a long run: one reference of length 38 in the three-byte form, well-formed, expands to the input, size within the period-1 bound of C10
 #[kani::proof]
-#[kani::unwind(324)]
+#[kani::unwind(66)]
 fn c09_lz13_run40() {
-    let x = run_input(0xFF, 0xFF, false, 40);
-    check_lz13_long::<3, 38>(&x, 40, 8 + 3 + 2 * 4 + 1);
+    let x = run_input::<64>(0xFF, 0xFF, false, 40);
+    check_lz13_long::<3, 38, 64>(&x, 40, 8 + 3 + 2 * 4 + 1);
 }
 
 // @tier quick
@@ -490,15 +497,15 @@ fn c10_expansion_lz13() {
 // @bounds period-2 input "abab.." (concrete) of length 40, LZ10 and LZ13 (solver-chosen arm)
 // @claims C10 effectiveness, period 2: LZ10 output <= 4 + 4 literals + (ceil(38/18)+1) references of 2 bytes + flag bytes; LZ13 output <= 8 + 4 literals + 2 references of <= 4 bytes + flag byte; streams well-formed and expanding to the input
 #[kani::proof]
-#[kani::unwind(324)]
+#[kani::unwind(66)]
 fn c10_effectiveness_period2() {
     let (v, w) = (0x61u8, 0x62u8);
-    let x = run_input(v, w, true, 40);
+    let x = run_input::<64>(v, w, true, 40);
     let lz13: bool = kani::any();
     if lz13 {
-        check_lz13_long::<3, 38>(&x, 40, 8 + 4 + 2 * 4 + 1);
+        check_lz13_long::<3, 38, 64>(&x, 40, 8 + 4 + 2 * 4 + 1);
     } else {
-        check_lz10_long::<6, 18>(&x, 40, 4 + 4 + 4 * 2 + 2);
+        check_lz10_long::<6, 18, 64>(&x, 40, 4 + 4 + 4 * 2 + 2);
     }
     kani::cover!(lz13);
 }
@@ -513,9 +520,140 @@ fn c10_effectiveness_period2() {
 fn c08_witness() {
     let data: [u8; NMAX] = kani::any();
     let out = keep(LZ10CompressionFormat {}.compress(&data[..3])).unwrap();
-    let p = parse_tokens::<8, 8>(&out, 4, 3, false);
+    let p = parse_tokens::<8, 8, 8>(&out, 4, 3, false);
     if p.ok && p.n == 3 {
         assert!(false, "VACUITY-WITNESS");
     }
     std::mem::forget(out);
+}
+
+// ---------------------------------------------------------------------------------------------
+// Window edge: call-site contract of the compressors, match search replaced by a monitor
+// ---------------------------------------------------------------------------------------------
+
+const BIG: usize = 4098;
+
+// @tier thorough
+// @timeout 5400
+// @mem 44
+// @bounds LZ10 compress on a concrete input of 4098 bytes with the match search replaced by a contract monitor that reports "no match": every one of the 4098 search calls is checked
+// @cbmc --max-field-sensitivity-array-size 4200
+// @claims LZ10 call-site contract across the window edge: the window offered to the search is exactly the last min(position, 4096) bytes ending at the cursor (never more: displacement fits 12 bits; never less: the whole window is used), the look-ahead is min(remaining, 18); the all-literal stream has the expected size
+// @assume mila::lz13::get_occurrence_length stubbed by stubs::occurrence_contract_monitor in this harness only (the search itself is decided by c08_match_search_kernel)
+// @unwindset compress=4200,extend_with=4200,extend_desugared=4200
+#[kani::proof]
+#[kani::unwind(20)]
+#[kani::stub(mila::lz13::get_occurrence_length, crate::stubs::occurrence_contract_monitor)]
+fn c08_lz10_window_contract() {
+    unsafe {
+        crate::stubs::SEARCH_LOOKAHEAD = 0x12;
+    }
+    let x = [0x55u8; BIG];
+    let out = keep(LZ10CompressionFormat {}.compress(&x)).unwrap();
+    assert!(unsafe { crate::stubs::SEARCH_CALLS } == BIG, "C08: one search per literal position");
+    assert!(unsafe { crate::stubs::SEARCH_MAX_WINDOW } == 0x1000, "C10: the window must reach 4096 bytes");
+    assert!(out.len() == 4 + BIG + BIG / 8, "C08: all-literal stream size");
+    std::mem::forget(out);
+}
+
+// @tier thorough
+// @timeout 5400
+// @mem 44
+// @bounds LZ13 compress on a concrete input of 4098 bytes with the match search replaced by the contract monitor and the wrapper-length helper stubbed
+// @cbmc --max-field-sensitivity-array-size 4200
+// @claims LZ13 call-site contract across the window edge: window = the last min(position, 4096) bytes ending at the cursor, look-ahead = min(remaining, 4096)
+// @assume mila::lz13::get_occurrence_length and calculate_lz13_header stubbed in this harness only
+// @unwindset compress=4200,extend_with=4200,extend_desugared=4200,append=4200
+#[kani::proof]
+#[kani::unwind(20)]
+#[kani::stub(mila::lz13::get_occurrence_length, crate::stubs::occurrence_contract_monitor)]
+#[kani::stub(mila::lz13::calculate_lz13_header, crate::stubs::lz13_header_stub)]
+fn c09_lz13_window_contract() {
+    unsafe {
+        crate::stubs::SEARCH_LOOKAHEAD = 0x1000;
+    }
+    let x = [0x55u8; BIG];
+    let out = keep(LZ13CompressionFormat {}.compress(&x)).unwrap();
+    assert!(unsafe { crate::stubs::SEARCH_CALLS } == BIG, "C09: one search per literal position");
+    assert!(unsafe { crate::stubs::SEARCH_MAX_WINDOW } == 0x1000, "C10: the window must reach 4096 bytes");
+    assert!(out.len() == 8 + BIG + BIG / 8, "C09: all-literal stream size");
+    std::mem::forget(out);
+}
+
+// @tier thorough
+// @timeout 5400
+// @mem 44
+// @bounds as c08_lz10_window_contract and c09_lz13_window_contract (solver-chosen format)
+// @cbmc --max-field-sensitivity-array-size 4200
+// @claims C10 effectiveness at the call sites: both compressors offer the whole 4096-byte window and their full match length (18 / 4096) to the match search
+// @assume mila::lz13::get_occurrence_length and calculate_lz13_header stubbed in this harness only
+// @unwindset compress=4200,extend_with=4200,extend_desugared=4200,append=4200
+#[kani::proof]
+#[kani::unwind(20)]
+#[kani::stub(mila::lz13::get_occurrence_length, crate::stubs::occurrence_contract_monitor)]
+#[kani::stub(mila::lz13::calculate_lz13_header, crate::stubs::lz13_header_stub)]
+fn c10_window_and_lookahead_contract() {
+    let lz13: bool = kani::any();
+    let x = [0x55u8; BIG];
+    if lz13 {
+        unsafe {
+            crate::stubs::SEARCH_LOOKAHEAD = 0x1000;
+        }
+        let out = keep(LZ13CompressionFormat {}.compress(&x)).unwrap();
+        std::mem::forget(out);
+    } else {
+        unsafe {
+            crate::stubs::SEARCH_LOOKAHEAD = 0x12;
+        }
+        let out = keep(LZ10CompressionFormat {}.compress(&x)).unwrap();
+        std::mem::forget(out);
+    }
+    assert!(unsafe { crate::stubs::SEARCH_MAX_WINDOW } == 0x1000, "C10: the window must reach 4096 bytes");
+    kani::cover!(lz13);
+}
+
+// @tier quick
+// @timeout 1800
+// @mem 12
+// @bounds the shared match search on a symbolic 8-byte buffer, cursor 2..=7, window = everything before the cursor, look-ahead 1..=remaining (all symbolic)
+// @claims get_occurrence_length returns a real occurrence: displacement in 2..=window, length <= look-ahead, the bytes at cursor-displacement match the bytes at the cursor for that length, and no candidate in the window (displacement >= 2) matches longer
+#[kani::proof]
+#[kani::unwind(10)]
+fn c08_match_search_kernel() {
+    let bytes: [u8; 8] = kani::any();
+    let new_ptr: usize = kani::any();
+    kani::assume(new_ptr >= 2 && new_ptr < 8);
+    let new_length: usize = kani::any();
+    kani::assume(new_length >= 1 && new_length <= 8 - new_ptr);
+    let old_length = new_ptr;
+    let (len, disp) = mila::verif_hooks::lz13::get_occurrence_length(&bytes, new_ptr, new_length, 0, old_length);
+    let len = len as usize;
+    assert!(len <= new_length, "C08: a match cannot be longer than the look-ahead");
+    if len > 0 {
+        assert!(disp >= 2 && disp <= old_length, "C08: displacement must reach into the window (the search never uses displacement 1)");
+        for j in 0..8 {
+            if j < len {
+                assert!(bytes[new_ptr - disp + j] == bytes[new_ptr + j], "C08: the returned match is not an occurrence of the look-ahead");
+            }
+        }
+    }
+    // maximality over every candidate start in the window with displacement >= 2
+    for start in 0..8 {
+        if start + 2 <= new_ptr {
+            let mut l = 0;
+            let mut alive = true;
+            for j in 0..8 {
+                if j < new_length && alive {
+                    if bytes[start + j] == bytes[new_ptr + j] {
+                        l += 1;
+                    } else {
+                        alive = false;
+                    }
+                }
+            }
+            assert!(l <= len, "C10: the match search must return the longest occurrence in the window");
+        }
+    }
+    kani::cover!(len == 3 && disp == 4);
+    kani::cover!(len == 0);
 }
